@@ -309,7 +309,10 @@ def load_known(pid):
     if not f.exists():
         return []
     data = json.loads(f.read_text())
-    return [e for e in data.get("findings", []) if e.get("property") == pid and e.get("kind") == "known"]
+    return [
+        e for e in data.get("findings", [])
+        if (e.get("property") == pid or pid in e.get("properties", [])) and e.get("kind") == "known"
+    ]
 
 
 def write_replay(ctx, name, payload):
